@@ -129,7 +129,7 @@ PROPS["C04"] = {
     "undecided": ["name capture", "imports added in other modules for all shapes", "behaviour for all inputs"],
 }
 PROPS["C13"] = {
-    "sidecars": ["c13_caches.py", "c13_observer.py"],
+    "sidecars": ["c13_caches.py", "c13_observer.py", "c09_operations.py"],
     "level": "other",
     "claim": "Proof level for the per-operation cache contracts: after a change notification _FileListCacher either drops its list or the list already contained "
              "the changed file (so a write that creates a file cannot leave a stale list), every create/move/remove/validate notification drops it, and "
@@ -140,7 +140,7 @@ PROPS["C13"] = {
     "undecided": ["whole-history coherence for all histories", "concluded data across modules", "auto-import index"],
 }
 PROPS["C09"] = {
-    "sidecars": ["c09_effects.py", "c10_change.py", "c11_leaves.py"],
+    "sidecars": ["c09_effects.py", "c10_change.py", "c11_leaves.py", "c09_operations.py"],
     "level": "exploration",
     "claim": "Mostly a bounded check with an effect monitor: every offset x 12 refactorings computes its changes with every disk mutator intercepted and the disk "
              "snapshot compared; scenarios check announced == touched, inside the project, never ignored.  Deductive kernel: ChangeSet.get_changed_resources "
